@@ -419,7 +419,7 @@ func runC16(r *mon.Run) {
 	r.SetRule("random Dicts of 0-40 pairs; keys from literals, identifiers (incl. prefix-related a/ab/a.b/a[0]/aZ), calls, qualified identifiers, composite and binary expressions, forced render-identical duplicates, null keys/values (Null(), Add(), List(), typed nil, Tag(nil)); every value is a unique marker; rendered formatted, NoFormat and via DictFunc; non-trivial = >=2 pairs with both sides non-null; distinct by Dict text")
 	r.Assume("'ordered by the rendered text of their keys' admits both the text as written and the text after gofmt; nil interface keys/values are API misuse and not generated")
 	c16NegControls(r)
-	n := r.Pick(12000, 300000)
+	n := r.Pick(12000, 1500000)
 	mon.Parallel(n, func(i int) { c16Case(r, int64(i)) })
 }
 
